@@ -202,11 +202,21 @@ def build(sc):
             else:
                 objs[par].children.append(t)
         ext = []
+        holder = None
         if sc.ext:
-            y = WBS()
+            if sc.layer == 'L6r':
+                # the outside tasks start as members of this WBS, below a summary that is REMOVED from it after the links are made
+                # (what is left of a cancelled work package: a dated task that others still wait for)
+                holder = Task(900, name='holder')
+                w.roots.append(holder)
+            else:
+                y = WBS()
             for (eid, attrs) in sc.ext:
                 e = Task(eid, name='e%s' % eid, **attrs)
-                y.roots.append(e)
+                if holder is not None:
+                    holder.children.append(e)
+                else:
+                    y.roots.append(e)
                 ext.append(e)
         for p, s in sc.links:
             objs[s].predecessors.append(objs[p])
@@ -214,6 +224,9 @@ def build(sc):
             pa = objs[a[1]] if a[0] == 'x' else ext[a[1]]
             pb = objs[b[1]] if b[0] == 'x' else ext[b[1]]
             pb.predecessors.append(pa)
+        if holder is not None:
+            if not w.remove(holder):
+                raise BuildRejected('holder not removed')
     except RuntimeError as e:
         if isinstance(e, RecursionError):
             raise
@@ -226,6 +239,23 @@ def build(sc):
 def _poke(objs):
     """Illegal assignments, each expected to be rejected and to change nothing: replace a task's dependency lists by a self-link,
     by its parent, by its first child, by one of its successors / predecessors (a cycle); make a task its own parent / child."""
+    # a dependency is added and taken back again (by assigning the former list, by remove): afterwards it does not exist
+    for y in objs:
+        for x in objs:
+            if x is y or x in list(y.predecessors):
+                continue
+            for undo in ('assign', 'remove'):
+                former = list(y.predecessors)
+                try:
+                    y.predecessors.append(x)
+                except RuntimeError as e:
+                    if isinstance(e, RecursionError):
+                        raise
+                    break
+                if undo == 'assign':
+                    y.predecessors = former
+                else:
+                    y.predecessors.remove(x)
     for t in objs:
         bad = [t]
         if t.parent is not None:
